@@ -238,6 +238,54 @@ void harness_client(void)
 	evrpc_pool_free(pool);
 }
 
+/* ------------------------------------------------------------ client, queue */
+/* Two RPCs, one connection: the second waits in pool->requests while the first holds the connection.  When the first one
+ * ends -- by reply or, C43_COMPLETION == 1, by its timer (completion without a request object) -- the queued RPC must be
+ * started (marshalled, handed to the HTTP layer, timer armed) and complete with its own callback: every RPC exactly once. */
+void harness_client_queue(void)
+{
+	struct evrpc_pool *pool = evrpc_pool_new(NULL);
+	static struct evhttp_connection con; struct evrpc_request_wrapper *ctx1, *ctx2; struct evhttp_request *q1, *q2; int r;
+	__CPROVER_assume(pool != NULL);
+	TAILQ_INIT(&con.requests);
+	evrpc_pool_add_connection(pool, &con);
+	evrpc_pool_set_timeout(pool, C43_POOL_TIMEOUT);
+	c43_make_result = 0; c43_unmarshal_result = 0;
+	ctx1 = evrpc_make_request_ctx(pool, &c43_request_obj, &c43_reply_obj, "Msg", c43_marshal, c43_clear, c43_unmarshal, c43_client_cb, &c43_cb_arg_obj);
+	ctx2 = evrpc_make_request_ctx(pool, &c43_request_obj, &c43_reply_obj, "Msg", c43_marshal, c43_clear, c43_unmarshal, c43_client_cb, &c43_cb_arg_obj);
+	__CPROVER_assume(ctx1 != NULL && ctx2 != NULL);
+	r = evrpc_make_request(ctx1); VP_ASSERT(r == 0 && c43_make_calls == 1, "C43: first RPC started on the idle connection");
+	q1 = c43_queued;
+	r = evrpc_make_request(ctx2);
+	VP_ASSERT(r == 0 && c43_make_calls == 1 && c43_marshal_calls == 1 && TAILQ_FIRST(&pool->requests) == ctx2, "C43: second RPC must wait while the only connection is busy");
+	VP_ASSERT(c43_cb_calls == 0, "C43: no callback before an outcome");
+	if (C43_COMPLETION == 1) {
+		(void)event_del(&ctx1->ev_timeout);
+		evrpc_request_timeout(-1, EV_TIMEOUT, ctx1);
+		VP_ASSERT(c43_cb_calls == 1 && c43_cb_error == EVRPC_STATUS_ERR_TIMEOUT, "C43: timed-out RPC: callback exactly once with ERR_TIMEOUT");
+	} else {
+		TAILQ_REMOVE(&con.requests, q1, next);
+		c43_inbuf_len = 10;
+		evrpc_reply_done_fwd(q1, ctx1);
+		if (!evhttp_request_is_owned(q1)) evhttp_request_free(q1);
+		VP_ASSERT(c43_cb_calls == 1 && c43_cb_error == EVRPC_STATUS_ERR_NONE, "C43: answered RPC: callback exactly once with ERR_NONE");
+	}
+	/* the connection is idle again: the queued RPC must have been started */
+	VP_ASSERT(TAILQ_FIRST(&pool->requests) == NULL && c43_make_calls == 2 && c43_marshal_calls == 2, "C43: RPC left queued although the connection became idle (it would never complete)");
+	q2 = c43_queued;
+	VP_ASSERT(q2 != q1 && TAILQ_FIRST(&con.requests) == q2, "C43: queued RPC handed to the HTTP layer on the idle connection");
+	VP_ASSERT(C43_POOL_TIMEOUT <= 0 || vpe_event_is_pending(&ctx2->ev_timeout), "C43: timer of the queued RPC armed when it is started");
+	TAILQ_REMOVE(&con.requests, q2, next);
+	c43_inbuf_len = 10;
+	evrpc_reply_done_fwd(q2, ctx2);
+	if (!evhttp_request_is_owned(q2)) evhttp_request_free(q2);
+	VP_ASSERT(c43_cb_calls == 2 && c43_cb_error == EVRPC_STATUS_ERR_NONE, "C43: queued RPC: callback exactly once after its reply");
+	VP_ASSERT(vpe_pending_events == 0 && c43_req_freed[0] && c43_req_freed[1], "C43: timers and HTTP requests of completed RPCs released");
+	VP_WITNESS("C43 client queue: queued RPC started when the connection became idle, both completed");
+	evrpc_pool_remove_connection(pool, &con);
+	evrpc_pool_free(pool);
+}
+
 /* ------------------------------------------------------------------ server */
 static int c43_handler_calls, c43_reqnew_ok, c43_replynew_ok, c43_sunmarshal_result, c43_reqfree_calls, c43_replyfree_calls, c43_complete_result, c43_rmarshal_calls;
 static int c43_sreq_obj, c43_sreply_obj; static struct evrpc_req_generic *c43_state;
